@@ -13,7 +13,8 @@ CHECKS = {
             "Trace validation: every recorded call of the two extraction functions (all 8 alignments x all widths 1..64 x "
             "pattern families x both context fills, buffers exactly as long as the field; plus seeded random buffers) is checked by "
             "TLC against the 5-line definition FieldBits/ZeroExtend64/SignExtend64 of Bits.tla, compared as 64-bit images so widths "
-            "up to 64 are exact.  One pure function: TLC is the evaluator of an executable definition, the strength is the enumeration.",
+            "up to 64 are exact.  One pure function: TLC is the evaluator of an executable definition, the strength is the enumeration.  "
+            "The same driver is re-run as a GOARCH=386 build and as a static binary in an empty root directory; a trace that differs from the ordinary one is validated as well.",
             "Trusted: TLC's evaluation of Bits.tla; JSON transport of 64-bit results as 20/22/22-bit limbs; Go's recover() reports over-reads as panics.",
             "DESIGN.md 6/C14"),
 }
@@ -76,11 +77,13 @@ CHECKS.update({
     "C04": ("model_checking", "TLA+ executable format definition (MSM.tla: masks, field-major satellite/signal arrays, popcount cell count) evaluated by TLC over traces of the real MSM4/MSM7 decoders",
             "Every decode of an encoder-generated frame (14 types x mask shapes incl. empty, 1xN, 64x1, 8x8, sparse x field extremes incl. invalid markers and all-zero cells x flag x 0..N zero padding bytes up to "
             "the 1023-byte limit), directly and through the handler's Analyse, is compared by TLC with MSM!DecodeMSM of the raw bytes: header fields, the three masks, satellite and signal lists, every "
-            "satellite-cell and signal-cell field with sign, each cell's satellite and signal id and its grouping.  MSM!WellFormedMSM decides the precondition.",
+            "satellite-cell and signal-cell field with sign, each cell's satellite and signal id and its grouping.  MSM!WellFormedMSM decides the precondition.  "
+            "The same driver is re-run as a GOARCH=386 build and as a static binary in an empty root directory; a trace that differs from the ordinary one is validated as well.",
             FMT_NOTE, "DESIGN.md 6/C04"),
     "C05": ("model_checking", "TLA+ executable format definition (Base1005.tla incl. exact 4-decimal display arithmetic) evaluated by TLC over traces of the real 1005/1006 decoders and String()",
             "Every decode (decoder and handler path, both log levels) of generated 1005/1006 frames is checked by TLC: fields as 64-bit sign-extended images of the 38-bit values, every decimal number shown by "
-            "String() against integer x 0.0001 to exactly four decimals (bit-serial quotient/remainder inside 32-bit integers), wrong type / too short => error.",
+            "String() against integer x 0.0001 to exactly four decimals (bit-serial quotient/remainder inside 32-bit integers), wrong type / too short => error.  "
+            "The same driver is re-run as a GOARCH=386 build and as a static binary in an empty root directory; a trace that differs from the ordinary one is validated as well.",
             FMT_NOTE, "DESIGN.md 6/C05"),
 })
 
